@@ -266,6 +266,24 @@ func genTransfer(seed uint64, tier string) KScenario {
 			sc.Net.AltMTU = r.Pick(1300, 1350, 1400)
 		}
 	}
+	if r.P(0.03) {
+		// One long outage of both directions on an otherwise perfect network, under an idle timeout of ten minutes: the path is
+		// dead for minutes, but for less than the idle period, with data in flight when it begins. Probing must not thin out
+		// so far that the idle period ends before the next probe.
+		sc.Cfg.Client = "plain"
+		sc.Cfg.IdleMS = [2]int64{600000, 600000}
+		sc.Cfg.KeepAliveMS = [2]int64{}
+		e := int64(r.Pick(100000, 200000, 330000, 450000))
+		from := int64(r.Pick(1000, 1500, 3000))
+		sc.Net.Drop, sc.Net.Dup, sc.Net.Delay, sc.Net.Corrupt, sc.Net.Trunc, sc.Net.Burst = 0, 0, 0, 0, 0, 0
+		sc.Net.DropInitials, sc.Net.DropHandshakes = 0, 0
+		sc.Net.MTU, sc.Net.AltMTU, sc.Net.RebindAtOrd = [2]int{}, 0, 0
+		sc.Net.Outages = []WOutage{{Dir: 2, FromMS: from, ToMS: from + e}}
+		sc.LateRebind, sc.Migrate, sc.ForeignPeer = false, nil, false
+		sc.Streams[0].AtMS = from - int64(r.Pick(0, 5, 50))
+		sc.Streams[0].Size = max(sc.Streams[0].Size, 1200)
+		sc.Streams[0].AbortAt = 0
+	}
 	return sc
 }
 
@@ -1070,6 +1088,10 @@ func judgeFailure(w *World, cfg *WConfig, netc *WNet, nExplicit int, res *KResul
 			}
 			if gap := time.Duration(w.starvedFor(side, now)); gap < idle-20*time.Millisecond {
 				res.Fail("idle timeout although undamaged datagrams kept arriving", "side %d: last good delivery %v before the failure, idle period %v", side, gap, idle)
+			} else if e := netc.singleOutage(); !handshake && e > 0 && nfaults == 0 && idle > e+75*time.Second {
+				// (C01: "when the path is not dead for longer than the idle timeout, transfers complete" - claimed here with more
+				// than a minute to spare, on a network that does nothing else wrong, for a connection that was established before)
+				res.Fail("connection idled out although the path was dead for less than the idle period (one outage on an otherwise perfect network)", "side %d: outage %v, idle period %v", side, e, idle)
 			} else if span := w.longestStarvation(now); 8*span > idle {
 				// Recovery is owed in proportion to the fault, not to the idle period: while one direction delivers nothing for a
 				// span E, retransmission timers back off to about E, what finally arrives can be acknowledged (or, waiting for
@@ -1342,6 +1364,16 @@ func (w *World) stoppedProbing(side int, now int64) (time.Duration, string) {
 		what += p.String() + " "
 	}
 	return time.Duration(now - last.SentNS), what
+}
+
+// singleOutage: the length of the run's only fault, if that is one outage of both directions that begins a second or more
+// after the start (the handshake is long complete on a network that has no other fault); 0 otherwise.
+func (n *WNet) singleOutage() time.Duration {
+	if n.Drop != 0 || n.Dup != 0 || n.Delay != 0 || n.Corrupt != 0 || n.Trunc != 0 || n.MTU != [2]int{} || n.AltMTU != 0 || n.RebindAtOrd != 0 ||
+		n.DropInitials != 0 || n.DropHandshakes != 0 || len(n.Outages) != 1 || n.Outages[0].Dir != 2 || n.Outages[0].NAT || n.Outages[0].FromMS < 1000 {
+		return 0
+	}
+	return time.Duration(n.Outages[0].ToMS-n.Outages[0].FromMS) * time.Millisecond
 }
 
 // longestStarvation: the longest span (before `before`) during which everything one direction carried was lost or damaged: from
